@@ -1538,8 +1538,8 @@ WD = ("c06_watchdog.h",)       # header shared by the three harness sources (par
 
 import threading
 
-FIRST_BUDGET = 10       # CPU seconds per call in the streams (the operations take microseconds to milliseconds)
-CONFIRM_BUDGET = 30     # CPU seconds for the confirmation re-run of one case alone
+FIRST_BUDGET = 6        # CPU seconds per call in the streams (the operations take microseconds to milliseconds)
+CONFIRM_BUDGET = 20     # CPU seconds for the confirmation re-run of one case alone
 MAX_CONFIRM = 3         # confirmations per run
 MAX_OVERRUN = 6         # first-stage overruns per run; then the streams stop
 MAX_CRASH = 4           # crashes of one call form; then the form is not driven any more
